@@ -1,0 +1,75 @@
+// SPDX-FileCopyrightText: 2026 The Pion community <https://pion.ly>
+// SPDX-License-Identifier: MIT
+
+//go:build verif
+
+package gcc
+
+// Machine-checked contracts (comment-only; read by /verif/govc, never compiled into a normal build).
+//
+// Property C16: whatever the floating-point estimators compute (every float operation is uninterpreted here,
+// so the proofs hold for NaN, infinities and any rounding), the published bitrate stays within the configured bounds.
+//
+//@ func clampInt
+//@   modifies nothing
+//@   ensures in_bounds: minVal <= maxVal ==> minVal <= result && result <= maxVal
+//@   ensures identity_inside: minVal <= b && b <= maxVal ==> result == b
+//@
+//@ pred rcInv(c *rateController) := c.minBitrate <= c.maxBitrate && c.minBitrate <= c.target && c.target <= c.maxBitrate && c.latestDecreaseRate != nil
+//@
+//@ # delay-based controller: the DelayStats handed downstream carry a target inside [min, max]
+//@ func (*rateController).onDelayStats
+//@   requires inv: rcInv(c)
+//@   modifies *
+//@   ensures inv: rcInv(c)
+//@   ensures at_most_one_update: calls("c.dsWriter") <= 1
+//@   ensures published_in_bounds: calls("c.dsWriter") == 1 ==> c.minBitrate <= callarg("c.dsWriter", 0).TargetBitrate && callarg("c.dsWriter", 0).TargetBitrate <= c.maxBitrate
+//@   ensures published_is_target: calls("c.dsWriter") == 1 ==> callarg("c.dsWriter", 0).TargetBitrate == atcall("c.dsWriter", c.target)
+//@   ensures not_called_with_lock: calls("c.dsWriter") == 1 ==> atcall("c.dsWriter", lockstate(c.lock)) != -1
+//@
+//@ # loss-based controller: never hands out more than the wanted rate
+//@ func (*lossBasedBandwidthEstimator).getEstimate
+//@   modifies e.bitrate, e.lock
+//@   ensures reported: result.TargetBitrate == e.bitrate && result.AverageLoss == e.averageLoss
+//@   ensures is_min: old(e.bitrate) > 0 ==> e.bitrate == ite(wantedRate < old(e.bitrate), wantedRate, old(e.bitrate))
+//@   ensures capped: e.bitrate <= wantedRate
+//@
+//@ pred bweInv(e *SendSideBWE) := e.minBitrate <= e.maxBitrate && e.lossController != nil
+//@
+//@ # combination step: published value = clamp(min(delay, loss)); getter, pacer and callback all see that value
+//@ func (*SendSideBWE).onDelayUpdate
+//@   requires inv: bweInv(e)
+//@   modifies *
+//@   ensures within_configured_bounds: e.minBitrate <= e.latestBitrate && e.latestBitrate <= e.maxBitrate
+//@   ensures bounds_kept: e.minBitrate == old(e.minBitrate) && e.maxBitrate == old(e.maxBitrate)
+//@   ensures is_clamped_min: calls("getEstimate") == 1 && callarg("getEstimate", 1) == delayStats.TargetBitrate
+//@   ensures pacer_told_iff_changed: (calls("e.pacer.SetTargetBitrate") == 1) <==> (e.latestBitrate != old(e.latestBitrate))
+//@   ensures pacer_told_same_rate: calls("e.pacer.SetTargetBitrate") == 1 ==> callarg("e.pacer.SetTargetBitrate", 0) == e.latestBitrate
+//@   ensures pacer_at_most_once: calls("e.pacer.SetTargetBitrate") <= 1
+//@   ensures callback_same_rate: calls("go e.onTargetBitrateChange") == 1 ==> callarg("go e.onTargetBitrateChange", 0) == e.latestBitrate && e.latestBitrate != old(e.latestBitrate)
+//@   ensures callback_iff_changed_and_set: (calls("go e.onTargetBitrateChange") == 1) <==> (e.latestBitrate != old(e.latestBitrate) && old(e.onTargetBitrateChange) != nil)
+//@   ensures stats_recorded: e.latestStats.DelayStats.TargetBitrate == delayStats.TargetBitrate
+//@
+//@ func (*SendSideBWE).GetTargetBitrate
+//@   modifies e.lock
+//@   ensures getter: result == e.latestBitrate
+//@
+//@ func (*SendSideBWE).WriteRTCP
+//@   modifies *
+//@   ensures closed_error: old(closed(e.close)) ==> result == ErrSendSideBWEClosed
+//@
+//@ func (*SendSideBWE).Close
+//@   requires open: !closed(e.close) && e.close != nil
+//@   requires first_close: e.delayController != nil && e.delayController.ackPipe != nil && !closed(e.delayController.ackPipe)
+//@        && e.delayController.ackRatePipe != nil && !closed(e.delayController.ackRatePipe)
+//@        && e.delayController.ackPipe != e.delayController.ackRatePipe && e.close != e.delayController.ackPipe && e.close != e.delayController.ackRatePipe
+//@   modifies *
+//@   ensures closed: result == nil ==> closed(e.close)
+//@
+//@ # frame-only contracts (nothing is assumed of these by their callers beyond "returns")
+//@ func (*lossBasedBandwidthEstimator).updateLossEstimate
+//@   modifies *
+//@ func (*delayController).updateDelayEstimate
+//@   modifies *
+//@ func (*delayController).updateRTT
+//@   modifies *
